@@ -5,6 +5,7 @@
 package tls
 
 import (
+	"crypto/ecdh"
 	"crypto/mlkem"
 	crand "crypto/rand"
 	"crypto/sha256"
@@ -2916,6 +2917,12 @@ func (uconn *UConn) ApplyPreset(p *ClientHelloSpec) error {
 						// only do this once for the first non-grease curve
 						uconn.HandshakeState.State13.KeyShareKeys.Ecdhe = ecdheKey
 						preferredCurveIsSet = true
+					} else {
+						// keep the keys of the other shares: the server may select any of them
+						if uconn.HandshakeState.State13.KeyShareKeys.EcdheKeys == nil {
+							uconn.HandshakeState.State13.KeyShareKeys.EcdheKeys = make(map[CurveID]*ecdh.PrivateKey)
+						}
+						uconn.HandshakeState.State13.KeyShareKeys.EcdheKeys[curveID] = ecdheKey
 					}
 				}
 			}
